@@ -239,6 +239,26 @@ func CheckStruct(c StructCase) *kit.Violation {
 			if err != nil {
 				return kit.Failf("json consumer: unexpected error reading back %q: %v", clipb(buf.Bytes()), err)
 			}
+			// the same document as raw JSON text: what comes back is the text of the value, nothing more (r8)
+			if c.Mode == "generic" {
+				raw := json.RawMessage(bytes.TrimSpace(enc))
+				var rbuf bytes.Buffer
+				if v := kit.Guard("json producer (json.RawMessage)", func() { err = prod.Produce(&rbuf, raw) }); v != nil {
+					return v
+				}
+				var back json.RawMessage
+				if err == nil {
+					if v := kit.Guard("json consumer into *json.RawMessage", func() { err = cons.Consume(bytes.NewReader(rbuf.Bytes()), &back) }); v != nil {
+						return v
+					}
+				}
+				if err != nil {
+					return kit.Failf("json round trip of a json.RawMessage %q: unexpected error %v", clipb(raw), err)
+				}
+				if !bytes.Equal(back, raw) {
+					return kit.Failf("json round trip of a json.RawMessage: produced %q from %q, consumed %q", clipb(rbuf.Bytes()), clipb(raw), clipb(back))
+				}
+			}
 			if !reflect.DeepEqual(out, in) {
 				return kit.Failf("json round trip of an untyped value held by a struct ([]interface{} member, *struct and []struct with an interface{} member): produced %q, consumed %#v, want %#v", clipb(buf.Bytes()), out, in)
 			}
